@@ -340,3 +340,21 @@ P.include(C05.P, ["append_bond"], why="hydrogens are bonded through it; it must 
 # the hydrogen count uses the bonded valence, i.e. Bond.order of every bond at the centre: that table is part of this claim
 from contracts import C15_graph as C15
 P.include(C15.P, ["Bond.order: the order of every bond type"], why="valence used up by the bonds of the centre")
+
+
+# ------------------------------------------------------------------------------------------ bounded stand-in (real code, CPython)
+P.bounded_in_quick = True       # ~2 s: also runs in the quick tier (reported as bounded, never as proved)
+
+
+@P.bounded_standin("hydrogen placement on C / N / O centres with 0-3 neighbours, one call after another in one process (real code under CPython)",
+                   "3 centres x (4 neighbour counts x 2 orientations x mirror + 8 exactly axis-aligned single neighbours); checks count, finite coordinates, "
+                   "X-H distance = sum of covalent radii (1e-3), every new H away from the neighbours' centroid, frame, idempotence")
+def _bounded(seed):
+    import subprocess, json, os
+    here = os.path.dirname(os.path.dirname(os.path.abspath(__file__)))
+    r = subprocess.run(["/venv/bin/python", os.path.join(here, "replay", "C16.py"), "--bounded", str(seed)], capture_output=True, text=True, timeout=3000,
+                       env={**os.environ, "PYTHONPATH": os.environ.get("PYVC_REPO", "/repo")})
+    try:
+        return json.loads(r.stdout.strip().splitlines()[-1])
+    except Exception:
+        return {"error": (r.stdout + r.stderr)[-500:]}
